@@ -22,10 +22,44 @@ def harnesses(prop):
     return out
 
 
+def do_extract(h):
+    """Cut the blocks a harness verifies out of /repo (same extractor as the Verus units)."""
+    from . import rustlex
+    for ex in h.get("extract", []):
+        path = os.path.join(gen.REPO, ex["file"])
+        text = open(path, encoding="utf-8").read()
+        masked = rustlex.mask(text)
+        m = re.search(r"\bfn\s+%s\b" % re.escape(ex["fn"]), masked)
+        if not m:
+            raise gen.LostAnchor("fn %s not found in %s" % (ex["fn"], ex["file"]))
+        ob = masked.find("{", m.start())
+        cb = rustlex.match_brace(masked, ob)
+        inner = (ob + 1, cb)
+        ms = re.compile(ex["block"], re.M).search(masked, inner[0], inner[1])
+        if not ms:
+            raise gen.LostAnchor("block anchor `%s` not found in fn %s" % (ex["block"], ex["fn"]))
+        a = masked.rfind("\n", 0, ms.start()) + 1
+        me = re.compile(ex["through_stmt"], re.M).search(masked, ms.end(), inner[1])
+        if not me:
+            raise gen.LostAnchor("anchor `%s` not found after `%s`" % (ex["through_stmt"], ex["block"]))
+        ob2 = masked.find("{", me.start())
+        cb2 = rustlex.match_brace(masked, ob2)
+        seg = rustlex.strip_comments(text[a:cb2 + 1])
+        for rx, rp in ex.get("rules", []):
+            seg = re.sub(rx, rp, seg, flags=re.M)
+        open(os.path.join(h["dir"], ex["out"]), "w").write("{\n" + seg + "\n}\n")
+
+
 def run_for(prop):
     res = []
     for h in harnesses(prop):
         d = h["dir"]
+        try:
+            do_extract(h)
+        except gen.LostAnchor as e:
+            res.append({"harness": os.path.basename(d), "crate": os.path.relpath(d, ROOT), "status": "undecided", "message": "lost anchor: %s" % e,
+                        "bound": None, "back_end": "kani/cbmc", "label": "bounded", "tag": "%s.kani.%s" % (prop, os.path.basename(d)), "cmd": "", "wall_s": 0, "output": ""})
+            continue
         lock = os.path.join(gen.REPO, "Cargo.lock")
         if os.path.exists(lock):
             shutil.copy(lock, os.path.join(d, "Cargo.lock"))
